@@ -15,6 +15,25 @@ def instances(tier, rng):
     dag_s = C.spread(dag, 120 if quick else 495)
     cyc_s = C.spread(cyc, 30 if quick else 72) + C.spread(cyc4, 70 if quick else 900)
     insts = []
+    # conserving flows that leave some edges at 0 (legal: "non-negative flow values"); with an ignored edge / a constraint
+    # over a zero edge the MILP route is taken and the zero edges must still be explained by exactly 0
+    zdag = [u for u in vlib.universe("dag", 4, k=2, w=3, cap=12, zero=True) if 0 in u["ew"]]
+    for u in C.spread(zdag, 60 if quick else 400):
+        zero_edges = [list(e) for e, w in zip(u["edges"], u["ew"]) if w == 0]
+        pos_edges = [list(e) for e, w in zip(u["edges"], u["ew"]) if w > 0]
+        for cls in ("kFlowDecomp", "MinFlowDecomp"):
+            cfgs = [{"opt": {"optimize_with_greedy": False}}, {}]
+            if pos_edges and len(u["edges"]) >= 3:
+                cfgs.append({"ign": [rng.choice(pos_edges)]})
+                cfgs.append({"ign": [rng.choice(pos_edges)], "cons": [[rng.choice(zero_edges)]]})
+            cfgs.append({"cons": [[rng.choice(zero_edges)]]})
+            for cfg in cfgs:
+                r = C.base(u, cls)
+                r["wt"] = "int"
+                if cls == "kFlowDecomp":
+                    r["k"] = len(u["proutes"]) + (1 if "cons" in cfg else 0)
+                r.update(cfg)
+                insts.append(r)
     for u in dag_s:
         kp = len(u["proutes"])
         for cls in ("kFlowDecomp", "MinFlowDecomp"):
